@@ -203,6 +203,8 @@ impl RdbEngine {
         
         // Spawn background thread
         thread::spawn(move || {
+            // a snapshot writer sees the command thread's clock: frozen while a script or a transaction runs
+            crate::storage::clock::follow();
             println!("RDB: Background saving started");
             
             match engine.save(&storage) {
